@@ -1497,7 +1497,13 @@ std::ostream& expression_t::print(std::ostream& os, bool old) const
 
     case AG:
         os << "A[] ";
-        get(0).print(os, old);
+        if (get(0).get_kind() == AND && get(0).get(1).get_kind() == AF) {
+            // Buchi objective "A[] (p && A<> q)": a path formula is read only in this position, inside these parentheses
+            embrace_strict(os << '(', old, get(0).get(0), get_precedence(AND)) << " && ";
+            get(0).get(1).print(os, old) << ')';
+        } else {
+            get(0).print(os, old);
+        }
         break;
 
     case LEADS_TO:
